@@ -60,6 +60,12 @@ def validate(ctx, out_dir, prefix, group="all", max_close_ms=1200,
                 key = "life:leak:" + "+".join(sorted(set(ev.get("names", []))))
             elif ev.get("blocked", 0) or ev.get("stuck", 0):
                 key = "life:blocked-calls-left"
+        elif ev.get("ev") == "closeDone" and not any(
+                e.get("ev") == "tx" and e.get("k") == "FIN" and
+                e.get("ep") == ev.get("ep") for e in evs[:rel]):
+            key = "life:closed-without-fin-although-transport-takes-packets"
+        elif ev.get("ev") == "selfClosed":
+            key = "life:connection-did-not-close-itself"
         elif ev.get("ev") == "closeStuck":
             key = "life:close-never-returns"
         elif ev.get("ev") == "closeRet":
@@ -68,7 +74,8 @@ def validate(ctx, out_dir, prefix, group="all", max_close_ms=1200,
         life = [e for e in evs[:rel + 1] if e.get("ev") in (
             "closeCall", "closeQuit", "closeDone", "closeRet", "fin", "sExit",
             "rExit", "blockedAtClose", "netAtClose", "postSend", "postRecv",
-            "peerCheck", "inventory", "abortInventory", "pongTimeout") or
+            "peerCheck", "inventory", "abortInventory", "pongTimeout",
+            "selfClosed") or
             (e.get("ev") == "tx" and e.get("k") == "FIN") or
             (e.get("ev") in ("sendRet", "recvRet") and e.get("err"))]
         ctx.report(key, "life-cycle trace of the real connection is not a "
